@@ -432,14 +432,14 @@ PROPS.update({
         theorems=[(CMP + 'C10', ['DX.debug_trace_is_std', 'DX.transparent_delegates', 'DX.two_transparent_rejected',
                                  'DX.debug_struct_trace'])],
         l1=[('basic', 4000, 150000), ('all', 3000, 100000)],
-        extra=extras(extra_programs(l2gen.gen_c10_program, 600, 12000, what='Debug output differs from the standard derive on the type with its ignored fields deleted / from the transparent field alone'), extra_twins(360, 6000)),
+        extra=extras(extra_cmp_l2('debugRun', None, 480, 9600), extra_programs(l2gen.gen_c10_program, 600, 12000, what='Debug output differs from the standard derive on the type with its ignored fields deleted / from the transparent field alone'), extra_twins(360, 6000)),
         labels=r':Debug$',
     ),
     'C11': dict(
         theorems=[(CMP + 'C11', ['DX.defaultCtorArgs_vals', 'DX.into_iff_strlit_or_path', 'DX.default_struct_follows_doc',
                                  'DX.default_enum_rejections', 'DX.default_enum_follows_doc'])],
         l1=[('basic', 4000, 150000), ('all', 3000, 100000)],
-        extra=extras(extra_programs(l2gen.gen_c11_program, 800, 16000, per=200, what='default() does not return the documented value'), extra_verdicts(l2gen.gen_c11_reject_case, 24, 200), extra_twins(360, 6000)),
+        extra=extras(extra_cmp_l2('defaultRun', None, 600, 12000), extra_programs(l2gen.gen_c11_program, 800, 16000, per=200, what='default() does not return the documented value'), extra_verdicts(l2gen.gen_c11_reject_case, 24, 200), extra_twins(360, 6000)),
         labels=r':Default$',
     ),
     'C12': dict(
